@@ -464,7 +464,12 @@ def observe(world, app, r, cbrec, geoms, variant, fmt='png'):
         elif f == 'wms.caps':
             obs['listing'] = sorted(set(re.findall(r'<Layer[^>]*>\s*<Name>([^<]*)</Name>', body.decode('utf8', 'replace'))))
         elif f == 'tms.caps':
-            obs['listing'] = sorted(set(re.findall(r'href="[^"]*/tms/1\.0\.0/([^/"]+)/', body.decode('utf8', 'replace'))))
+            # a layer counts as listed when ALL its tile sets are (every cached layer has two: the grid of the world and
+            # W.SECOND_GRID); a layer with some of them shows as '<name>#incomplete'
+            sets = {}
+            for lay, grid in re.findall(r'href="[^"]*/tms/1\.0\.0/([^/"]+)/([^/"]+)"', body.decode('utf8', 'replace')):
+                sets.setdefault(lay, set()).add(grid)
+            obs['listing'] = sorted(lay if len(g) == 1 + len(W.SECOND_GRID) else lay + '#incomplete' for lay, g in sets.items())
         elif f == 'wmts.caps':
             obs['listing'] = sorted(set(re.findall(r'<Layer>\s*<ows:Title>[^<]*</ows:Title>\s*<ows:Abstract>[^<]*</ows:Abstract>'
                                                    r'(?:\s*<ows:WGS84BoundingBox>.*?</ows:WGS84BoundingBox>)?'
